@@ -70,6 +70,10 @@ EXPLANATION += (
     ' Round 5: settings (bootstrap_iteration, bootstrap_factor, rng, n_assignments ...) are forwarded at every call (R-FWD/parameter-forwarded); node identity rule of C10 applied to the election module.'
 )
 
+EXPLANATION += (
+    ' Round 6: the centroids voted on divide by a floored cell count (R-POS/cell-count-denominator, rule of C18).'
+)
+
 RULE_TEXT = (
     "one obligation per draw, per block, per indexed comprehension, per "
     "provenance relation, per kernel function x configuration (type and "
@@ -110,6 +114,10 @@ def check(ctx):
             check_zip_alignment(ctx, fi_)
     # settings this property depends on are handed down every call
     # chain, never left to a callee's default (sa/rules/forwarding.py)
+    # the centroids that are voted on are finite: no mean divides by a
+    # cell count that may be zero (rule of C18, sa/props/C18.py)
+    from .C18 import check_count_denominators
+    check_count_denominators(ctx)
     from ..rules.forwarding import check_forwarding
     check_forwarding(ctx, {'bootstrap_iteration', 'bootstrap_factor', 'bootstrap_factor_lookup', 'n_assignments'})
 
